@@ -5,6 +5,7 @@ package props
 import (
 	"fmt"
 	"hash/fnv"
+	"time"
 	"sort"
 	"strings"
 	"testing/synctest"
@@ -31,6 +32,12 @@ type e2Ctl struct {
 	states   map[uint64]struct{}
 	// loop threads: their position carries no local state while parked; while blocked natively
 	// they are keyed by the shared state they last saw
+	// clock: if > 0 the explorer may let virtual time pass (root sleeps `tick`), as an extra
+	// alternative at every point (costing one observation) and as the default when nothing can run
+	tick     time.Duration
+	ticks    int // clock steps taken
+	maxTicks int
+	wantTick func() bool // is there still something a timer could unblock?
 	isLoop   func(name string) bool
 	lastSeen map[*verifsched.Thread]string
 	lastRel  *verifsched.Thread
@@ -56,7 +63,8 @@ func (c *e2Ctl) loop(onQuiescent func()) bool {
 			// not fatal by itself: the property monitors decide what it means
 		}
 		en, _ := c.S.Snapshot()
-		if len(en) == 0 {
+		canTick := c.tick > 0 && c.ticks < c.maxTicks && (c.wantTick == nil || c.wantTick())
+		if len(en) == 0 && !canTick {
 			return true
 		}
 		if c.steps >= c.horizon {
@@ -113,10 +121,17 @@ func (c *e2Ctl) loop(onQuiescent func()) bool {
 				alts = append(alts, a)
 			}
 		}
+		if canTick {
+			a := explore.Alt{Name: "clock@tick"}
+			if len(alts) > 0 {
+				a.Observe = 1
+			}
+			alts = append(alts, a)
+		}
 		ch := 0
 		if len(c.points) < len(c.prefix) {
 			ch = c.prefix[len(c.points)]
-			if ch < 0 || ch >= len(order) {
+			if ch < 0 || ch >= len(alts) {
 				c.err = fmt.Sprintf("replay divergence at point %d: choice %d of %d enabled (%s)", len(c.points), ch, len(order), altNames(alts))
 				return false
 			}
@@ -137,6 +152,14 @@ func (c *e2Ctl) loop(onQuiescent func()) bool {
 			c.states[key] = struct{}{}
 		}
 		c.points = append(c.points, explore.SchedPoint{Alts: alts, Chosen: ch, Key: key})
+		if ch >= len(order) {
+			// the clock alternative: let one timer interval pass
+			c.ticks++
+			c.steps++
+			c.lastRel = nil
+			time.Sleep(c.tick)
+			continue
+		}
 		t := order[ch]
 		c.lastRel = t
 		c.steps++
